@@ -164,6 +164,12 @@ def start_values(ctx):
             if isinstance(x, ast.Compare) and len(x.ops) == 1 and isinstance(x.ops[0], ast.In):
                 coll = x.comparators[0]
                 vals = None
+                if isinstance(coll, ast.Attribute) and dotted(coll.value) in ('self', 'cls') and f.cls is not None:
+                    _, cv = m.class_attr(f.cls.qualname, coll.attr)        # a class level constant: `_VALUE_PROPERTIES = frozenset({...})`
+                    if cv is not None:
+                        coll = cv
+                if isinstance(coll, ast.Call) and dotted(coll.func) in ('frozenset', 'set', 'tuple', 'list') and len(coll.args) == 1:
+                    coll = coll.args[0]
                 if isinstance(coll, (ast.Set, ast.Tuple, ast.List)):
                     vals = {e.value for e in coll.elts if isinstance(e, ast.Constant)}
                 elif isinstance(coll, ast.Name):
